@@ -562,8 +562,9 @@ def evaluateFrom (env : Env) (polys : List (List Int)) (mapping : Option (List (
   -- a constant polynomial consumes no level: the encoding of its coefficient at the target scale
   if deg = 0 then
     evalFromPowerBasis env mapping inLevel { coeffs := polys, maxDeg := 0, lead := true } targetScale
-  -- depth check: `levelsConsumedPerRescaling·Depth()`, 0 levels per rescaling in the scale-invariant mode
-  else if !env.inv && inLevel < depthCheck deg then throw "err"
+  -- level check: `levelsConsumedPerRescaling·bits.Len64(degree)` (= ⌈log2(degree+1)⌉ rescalings), 0 levels per
+  -- rescaling in the scale-invariant mode
+  else if !env.inv && inLevel < bitLen deg then throw "err"
   else do
     genPowers env deg lazy
     let p0 : SubPoly := { coeffs := polys, maxDeg := deg, lead := true }
@@ -625,5 +626,34 @@ def runFrom (env : Env) (pre : List PreOp) (polys : List (List Int)) (mapping : 
   match r with
   | .ok o => (st.tr, "ok", some o)
   | .error e => (st.tr, e, none)
+
+/-! ## composite circuits and changes of basis: bookkeeping -/
+
+/-- `inverse.IntervalNormalization`: the number of compression steps `n = ⌈log2max / log2(2.45)⌉` for
+    `log2max = num/den`: the least `n` with `2.45^n ≥ 2^(num/den)`, i.e. `245^(n·den) ≥ 2^num · 100^(n·den)`
+    (each step compresses by the factor `L = 2.45`; fewer steps leave values above the threshold of the
+    last step, where `1 − (c·x)²` turns negative) -/
+def normItersLoop (num den : Nat) : Nat → Nat → Nat
+  | 0, n => n
+  | fuel + 1, n =>
+    if 245 ^ (n * den) ≥ 2 ^ num * 100 ^ (n * den) then n else normItersLoop num den fuel (n + 1)
+
+def normIters (num den : Nat) : Nat := normItersLoop num den (num + 1) 0
+
+/-- `bignum.Polynomial.ChangeOfBasis` for the Chebyshev interval `[a, b]`, times 8:
+    `scalar = 2/(b-a)`, `constant = (-a-b)/(b-a)` (exact for the widths the harness uses: 1, 2, 4, 8) -/
+def changeOfBasis8 (ab : Int × Int) : Int × Int := (16 / (ab.2 - ab.1), 8 * (-ab.1 - ab.2) / (ab.2 - ab.1))
+
+/-- `PolynomialVector.ChangeOfBasis(slots)` of circuits/ckks/polynomial: every slot mapped to polynomial `i`
+    gets the change of basis of polynomial `i`'s OWN interval; unmapped slots get `(0, 0)` -/
+def changeOfBasisVec8 (slots : Nat) (mapping : List (List Nat)) (ivs : List (Int × Int)) : List Int × List Int :=
+  let per := (List.range slots).map fun j =>
+    (mapping.zip ivs).foldl (fun acc mi => if mi.1.contains j then changeOfBasis8 mi.2 else acc) ((0, 0) : Int × Int)
+  (per.map (·.1), per.map (·.2))
+
+/-- `bignum.Polynomial.Evaluate` in the Chebyshev basis on `[a, b]` at an integer point where the change
+    of basis `u = (2x - a - b)/(b - a)` is integral: `Σ c_i T_i(u)` -/
+def chebEval (a b x : Int) (coeffs : List Int) : Int :=
+  evalBasis intOps true ((2 * x - a - b) / (b - a)) coeffs
 
 end Lattigo.Model.PolyEval
